@@ -55,7 +55,7 @@ CLAIMED.update({
  'C08': dict(section='8/C08', technique=ITS_TECH, note=ITS_NOTE + ' Known finding F-C08-1 (failure callback rejected by the flow limit) is recorded in known_findings.json and exhibited by c08_refuted_flow_limit.',
    text='Theorems c08_start (approval checked not consumed, lock taken, one promise), c08_lock_excludes, c08_callback (success: message executed, nothing else moves; failure: gateway untouched, tokens taken back through takeToken, lock cleared), c08_no_double; the recorded finding is reported as KNOWN-FINDING, any other stranding or double delivery as a violation. World level (Proofs/ItsLocks.v): the invariant LockInv (every delivery in flight holds its lock; at most one delivery in flight per message) is inductive over all 25 operation kinds: c08_inv_init, c08_inv_step, c08_inv_reachable, c08_in_flight_locked.'),
  'C13': dict(section='8/C13', technique=ITS_TECH, note=ITS_NOTE,
-   text='Theorems c13_route_out (+ three refusals), c13_route_in, c13_route_message, c13_execute_requires_trusted, c13_trusted_owner_only; hub names and message types regenerated and pinned. World level (Proofs/ItsConfig.v): c13_trusted_table_owner_only (no operation other than the owner's set/remove changes the trusted-address table).'),
+   text='Theorems c13_route_out (+ three refusals), c13_route_in, c13_route_message, c13_execute_requires_trusted, c13_trusted_owner_only; hub names and message types regenerated and pinned. World level (Proofs/ItsConfig.v): c13_trusted_table_owner_only (no operation other than the set/remove endpoints of the owner changes the trusted-address table).'),
  'C14': dict(section='8/C14', technique=ITS_TECH, note=ITS_NOTE,
    text='Theorems c14_*_id (published derivations), c14_preimage_inj / c14_kind_prefix, c14_create, c14_binding_forever_step and c14_binding_forever (write-once binding over every operation, asynchronous step and history, by case analysis over all 25 operations + induction), c14_local_deployer, c14_custom_not_native; prefix hashes distinct for keccak by computation.'),
  'C17': dict(section='8/C17', technique=ITS_TECH, note=ITS_NOTE + ' Known findings F-C17-1..5 (callback of the lookup fails in a later configuration: value stays in the service) are recorded and exhibited by the c17_refuted_* Examples.',
